@@ -46,6 +46,7 @@ EDITS = (
     "join-different-engines",
     "calc-unsupported-expression",
     "sort-unsupported-expression",
+    "sort-unsupported-equal-to-existing",
     "sel-reuses-join-predicate",
     "sel-reuses-join-predicate",
     "slice-negative",
@@ -213,6 +214,20 @@ def make_request(edit, rel, node, env, leaves, universe, opts, seed_expr, pick, 
             raise Skip()
         j, r2, n2 = cands[pick % len(cands)]
         return (lambda: r2.with_rows_satisfying(lib_p(j[3]), **o)), (ColumnError,), f"sel {fmt_p(j[3])} (predicate object of an earlier join) on {fmt(n2, leaves)}"
+    if edit == "sort-unsupported-equal-to-existing":
+        # the relation already ends in a sort by -c (unrestricted); the request sorts by the *same* expression built
+        # from a function restricted to the other engine kind.  The two expressions compare equal (engine support is
+        # not part of equality), which must not let the unsupported one slip through the merge.
+        if not cols:
+            raise Skip()
+        c = some(cols)
+        other_kind = "it" if kind_here == "sql" else "sql"
+        try:
+            sorted_rel = rel.sorted([SortTerm(lib_e(("neg", ("ref", c))), True)])
+        except Exception:
+            raise Skip()
+        bad = ("rneg", other_kind, ("ref", c))
+        return (lambda: sorted_rel.sorted([SortTerm(lib_e(bad), True)])), (EngineError,), f"sort by {fmt_e(bad)} on a relation already sorted by -{c} in {rel.engine}"
     if edit in ("calc-unsupported-expression", "sort-unsupported-expression"):
         if not cols:
             raise Skip()
